@@ -139,9 +139,19 @@ Proof. exact stap_nri_rewrite_refuted. Qed.
 Print Assumptions C06_stap_nri_rewrite_refuted.
 
 (* non-vacuity: the guards are satisfiable by a case with aggregation, a
-   fragmented unit across the sequence wrap, a sender report and a lost fragment *)
+   fragmented unit across the sequence wrap, a leading sender report and a lost fragment *)
 Example C06_nonvacuous :
   case_wf CH264 90000 65534 nv_items nv_mask = true /\
   tspec CH264 90000 0 nv_items nv_mask =
-    [mkO 0 533333333 [103; 66; 0]; mkO 0 533333333 [104; 206]; mkO 0 588888888 [9; 240]].
+    [mkO 0 522222222 [103; 66; 0]; mkO 0 522222222 [104; 206]; mkO 0 588888888 [9; 240]].
 Proof. exact C06_nonvacuous. Qed.
+
+(* known finding pts-rebase-at-first-sr: a sender report behind media rebases the
+   clock; the code's stamping is then not the one-clock specification *)
+Theorem C06_pts_rebase_refuted :
+  let items := [TData (ISingle 93600 true [65; 1; 2]); TSr 2147483648 0 0; TData (ISingle 97200 true [65; 3; 4])] in
+  sr_before_data false items = false /\
+  tspec CH264 90000 0 items [true; true; true] = [mkO 0 1540000000 [65; 1; 2]; mkO 0 (-23859349422222) [65; 3; 4]] /\
+  tspec_one CH264 90000 items [true; true; true] <> tspec CH264 90000 0 items [true; true; true].
+Proof. exact pts_rebase_refuted. Qed.
+Print Assumptions C06_pts_rebase_refuted.
